@@ -172,7 +172,7 @@ class C10(HostProp):
                    "'told why' is judged as 'some text was printed', never by wording"]
 
     def budget(self, tier):
-        return 120 + 260 if tier == "quick" else 120 * 8 + 9000
+        return 120 + 260 if tier == "quick" else 120 * 8 + 30_000
 
     def evidence_extra(self):
         return {"exhaustive_matrix": True, "matrix_cells": len(self.CELLS), "extra_cells_high_bit_tape_names": len(self.EXTRA),
@@ -255,7 +255,7 @@ class C09(HostProp):
                    "duplicate names are not generated"]
 
     def budget(self, tier):
-        return 420 if tier == "quick" else 12_000
+        return 420 if tier == "quick" else 8_000
 
     def generate(self, rng, tier, i):
         profile = rng.weighted([("mixed", 7), ("big_tape", 1), ("medium_full", 1), ("tool_chain", 3)])
